@@ -213,3 +213,8 @@ package sctp
 //@   loop 1 atentry assert#encodes-from-an-empty-value{C12} len(a.raw) == 0
 //@ func chunkError.marshal
 //@   loop 1 atentry assert#encodes-from-an-empty-value{C12} len(a.raw) == 0
+
+// ---- C12: in a RE-CONFIG chunk the second parameter starts on a 4-byte boundary ----
+
+//@ func chunkReconfig.marshal
+//@   at call padByte assert#second-parameter-starts-on-a-4-byte-boundary{C12} arg1 >= 0 && arg1 < 4 && (len(arg0)+arg1)%4 == 0
